@@ -217,4 +217,42 @@ theorem foldl_filterMap (g : β → Option γ) (xs : List β) (acc : List γ) :
     rw [ih]
     cases g x <;> simp
 
+/-! ### in-place loops `for i := range xs { xs[i] = f(xs[i]) }` -/
+
+theorem getD_append_cons_length (pre : List β) (x : β) (t : List β) (d : β) :
+    (pre ++ x :: t).getD pre.length d = x := by
+  induction pre with
+  | nil => rfl
+  | cons a p ih => simp
+
+theorem set_append_cons_length (pre : List β) (x v : β) (t : List β) :
+    (pre ++ x :: t).set pre.length v = pre ++ v :: t := by
+  induction pre with
+  | nil => rfl
+  | cons a p ih => simp [ih]
+
+theorem foldl_set_shift (f : β → β) (d : β) (xs pre : List β) :
+    ((List.range xs.length).map (· + pre.length)).foldl (fun (ys : List β) i => ys.set i (f (ys.getD i d))) (pre ++ xs)
+      = pre ++ xs.map f := by
+  induction xs generalizing pre with
+  | nil => simp
+  | cons x t ih =>
+    rw [List.length_cons, List.range_succ_eq_map, List.map_cons, List.map_map, List.foldl_cons]
+    simp only [Nat.zero_add, getD_append_cons_length, set_append_cons_length]
+    have h := ih (pre ++ [f x])
+    simp only [List.length_append, List.length_cons, List.length_nil, List.append_assoc, List.cons_append,
+      List.nil_append] at h
+    rw [List.map_cons, ← h]
+    congr 1
+    apply List.map_congr_left
+    intro i _
+    simp only [Function.comp, Nat.succ_eq_add_one]
+    omega
+
+/-- `for i := range xs { xs[i] = f(xs[i]) }` is `List.map` -/
+theorem foldl_set_map (f : β → β) (d : β) (xs : List β) :
+    (List.range xs.length).foldl (fun (ys : List β) i => ys.set i (f (ys.getD i d))) xs = xs.map f := by
+  have h := foldl_set_shift f d xs []
+  simpa using h
+
 end Orb.LoopForms
